@@ -117,6 +117,7 @@ pub fn step(sess: &mut Sess, toks: &[&str]) -> Option<String> {
             if mask & 16 != 0 {
                 b = b.add_attribute::<VDef>();
             }
+            b = crate::k3::add_anchor_attrs(b, mask);
             // a panic inside `build` unwinds to `main` (output `panic`, session unchanged)
             match b.build() {
                 Ok(map) => {
